@@ -294,9 +294,10 @@ def correspondence(ctx):
                 # coordinates of size R (absolute tolerance on that scale, as for the fully automatic case above)
                 add(sop, "standard_bins-args", sreal, 1e-13 if "max_dist" in skw else 1e-12, sR if (sll and "max_dist" not in skw) else 0.0,
                     dict(latlon=sll, geo_scale=sR, dim=sdim, pos=spos.tolist() if give_pos else None, **skw))
-                sk = "standard_bins-args:" + ("latlon" if sll else "metric") + ":" + "+".join(sorted(skw) or ["auto"]) + \
-                    ":" + scale_name(sR) + ("" if give_pos else ":no-pos")
+                sk = "standard_bins-args:" + ("latlon" if sll else "metric") + ":" + "+".join(sorted(skw) or ["auto"]) + ":" + scale_name(sR)
                 dist[sk] = dist.get(sk, 0) + 1
+                if not give_pos:
+                    dist["standard_bins-args:no-pos"] = dist.get("standard_bins-args:no-pos", 0) + 1
             # --- vario_estimate: bin centres returned and edges handed to the kernel, {bin_edges given / None} x
             #     {bin_no} x {max_dist} x geo_scale x {lat-lon / metric}
             for rep in range(2):
@@ -664,6 +665,140 @@ def search(ctx, deep=False):
                 if not (len(be) == wn + 1 and np.allclose(be, np.linspace(0, wmax, wn + 1), rtol=1e-10, atol=1e-10 * R) and be[-1] <= np.pi * R / 3 * (1 + 1e-12)):
                     report("standard_bins:latlon", "standard_bins(latlon=True) differs from linspace(0, great-circle(box diameter)/3, sturges+1)",
                            dict(geo_scale=R, lat=vlat.tolist(), lon=vlon.tolist()), got=be.tolist())
+            # ---------- S13: binning units of vario_estimate(latlon=True): {bin_edges given / None} x {bin_no given / None} x
+            #            {max_dist given / None} x geo_scale radian / degree / km / arbitrary.  Every length crossing the API
+            #            (bin_edges, max_dist, returned centres) is in geo_scale units, the kernel gets radians.
+            for rep in range(2):
+                bR = gen_geo(rng)
+                bn_pts = int(rng.randint(3, 30))
+                blat, blon = gen_cloud(rng, bn_pts)
+                bu = unit(blat, blon)
+                biu = np.triu_indices(bn_pts, 1)
+                ang = angle(bu[biu[0]], bu[biu[1]])                # radians, independent of gstools
+                bfld = np.round(rng.randn(bn_pts), 3)
+                bdf2 = (bfld[biu[0]] - bfld[biu[1]]) ** 2
+                combo = (2 * t + rep) % 5                          # 4 = explicit bin_edges
+                reach = float(np.max(ang)) if np.max(ang) > 0 else 0.5
+                bkw = gen_bin_args(rng, bR, reach, combo=combo) if combo < 4 else {}
+                diam_gc, xarg = box_gc_oracle(blat, blon, bR)
+                if "max_dist" not in bkw and combo < 4 and 1 - 1e-6 < xarg < 1:
+                    continue
+                if combo == 4:
+                    want_edges = np.sort(np.concatenate([[0.0], rng.uniform(0, 1.2 * reach * bR, int(rng.randint(1, 8)))]))
+                    if not np.all(np.diff(want_edges) > 0):
+                        continue
+                else:
+                    want_edges = np.linspace(0.0, bkw.get("max_dist", diam_gc / 3.0), bkw.get("bin_no", sturges_oracle(bn_pts)) + 1)
+                mode = "explicit" if combo == 4 else "+".join(sorted(bkw) or ["auto"])
+                bcase = dict(geo_scale=bR, lat=blat.tolist(), lon=blon.tolist(), field=bfld.tolist(), mode=mode,
+                             bin_edges=want_edges.tolist() if combo == 4 else None, **bkw)
+                tag = mode + ":" + scale_name(bR)
+                try:
+                    with KernelSpy() as bspy:
+                        bc, bg, bcnt = gs.vario_estimate((blat, blon), bfld, want_edges if combo == 4 else None, latlon=True, geo_scale=bR,
+                                                         return_counts=True, **bkw)
+                except Exception as ex:
+                    report("vario:latlon-bins-exception:" + mode, f"vario_estimate(latlon=True, geo_scale, {mode}) raised {type(ex).__name__}: {ex}", bcase)
+                    continue
+                ev += 1
+                # automatic cut-off: a difference of coordinates of size R -> absolute tolerance on that scale; given lengths: relative
+                atol = 1e-10 * bR if (combo < 4 and "max_dist" not in bkw) else 0.0
+                want_c = 0.5 * (want_edges[:-1] + want_edges[1:])
+                if not (len(bc) == len(want_c) and np.allclose(bc, want_c, rtol=1e-10, atol=atol)):
+                    report("vario:latlon-bin-centres:" + mode, "vario_estimate(latlon=True, geo_scale): returned bin centres are not the mid-points of the "
+                           "bins in geo_scale units (bin_edges as given / linspace(0, max_dist or great-circle(box diameter)/3, bin_no or sturges + 1))",
+                           bcase, got=np.asarray(bc).tolist(), want=want_c.tolist(), scale=scale_name(bR))
+                    continue
+                kedges = bspy.got[0]
+                if not (len(kedges) == len(want_edges) and np.allclose(kedges, want_edges / bR, rtol=1e-10, atol=atol / bR)):
+                    report("vario:latlon-kernel-edges:" + mode, "vario_estimate(latlon=True, geo_scale): the edges handed to the haversine kernel are not the "
+                           "bins divided by geo_scale (radians)", bcase, got=kedges.tolist(), want=(want_edges / bR).tolist(), scale=scale_name(bR))
+                    continue
+                # estimates and counts against brute-force great-circle binning; pairs within rounding of an edge may legitimately move
+                safe = len(want_edges) < 2 or np.min(np.abs(ang[:, None] * bR - want_edges[None, :])) > 1e-8 * bR + 10 * atol
+                if safe:
+                    wg, wc = brute_bins(ang * bR, bdf2, want_edges)
+                    ev += 1
+                    if not (np.array_equal(bcnt, wc) and np.allclose(bg, wg, rtol=1e-10, atol=1e-12)):
+                        report("vario:latlon-bins-not-great-circle:" + mode, "vario_estimate(latlon=True, geo_scale) differs from brute-force binning of the "
+                               "great-circle distances (geo_scale units)", bcase, got=[np.asarray(bg).tolist(), np.asarray(bcnt).tolist()],
+                               want=[wg.tolist(), wc.tolist()], scale=scale_name(bR))
+                # metamorphic: same data in another unit => same variogram, bin centres scaled
+                R2 = gen_geo(rng)
+                f = R2 / bR
+                kw2 = dict(bkw)
+                if "max_dist" in kw2:
+                    kw2["max_dist"] = kw2["max_dist"] * f
+                try:
+                    c2, g2, n2 = gs.vario_estimate((blat, blon), bfld, want_edges * f if combo == 4 else None, latlon=True, geo_scale=R2,
+                                                   return_counts=True, **kw2)
+                except Exception as ex:
+                    report("vario:latlon-bins-exception:" + mode, f"vario_estimate(latlon=True, geo_scale, {mode}) raised {type(ex).__name__}: {ex}",
+                           dict(bcase, geo_scale=R2))
+                    continue
+                ev += 1
+                if not (len(c2) == len(bc) and np.allclose(c2, np.asarray(bc) * f, rtol=1e-10, atol=atol * f)):
+                    report("vario:latlon-unit-change-centres:" + mode, "same lat-lon data, other geo_scale: bin centres are not scaled by the ratio of the units",
+                           dict(bcase, geo_scale_2=R2), got=np.asarray(c2).tolist(), want=(np.asarray(bc) * f).tolist())
+                elif safe and not (np.array_equal(n2, bcnt) and np.allclose(g2, bg, rtol=1e-10, atol=1e-12)):
+                    report("vario:latlon-unit-change:" + mode, "same lat-lon data, other geo_scale: the variogram (estimates / counts) changes",
+                           dict(bcase, geo_scale_2=R2), got=[np.asarray(g2).tolist(), np.asarray(n2).tolist()],
+                           want=[np.asarray(bg).tolist(), np.asarray(bcnt).tolist()])
+            # ---------- S14: standard_bins, every argument combination, lat-lon and metric, unstructured and structured
+            for rep in range(2):
+                sll = bool(rng.rand() < 0.7)
+                sR = gen_geo(rng)
+                combo = (2 * t + rep) % 4
+                structured = bool(rng.rand() < 0.25)
+                if sll:
+                    if structured:
+                        a0, a1 = np.sort(rng.uniform(-90, 90, int(rng.randint(1, 5)))), np.sort(rng.uniform(-300, 300, int(rng.randint(1, 5))))
+                        A, O = np.meshgrid(a0, a1, indexing="ij")
+                        arg, plat, plon = (a0, a1), A.ravel(), O.ravel()
+                    else:
+                        plat, plon = gen_cloud(rng, int(rng.randint(1, 30)))
+                        arg = (plat, plon)
+                    diam, xarg = box_gc_oracle(plat, plon, sR)
+                    if combo & 2 == 0 and 1 - 1e-6 < xarg < 1:
+                        continue
+                    cnt, sdim, reach = len(plat), 2, 0.5
+                else:
+                    sdim = int(rng.randint(1, 4))
+                    if structured:
+                        axes = [np.sort(rng.uniform(-50, 50, int(rng.randint(1, 5)))) for _ in range(sdim)]
+                        pts = np.array(np.meshgrid(*axes, indexing="ij")).reshape(sdim, -1)
+                        arg = tuple(axes)
+                    else:
+                        pts = rng.uniform(-50, 50, (sdim, int(rng.randint(1, 30))))
+                        arg = tuple(pts)
+                    diam = float(np.sqrt(np.sum((pts.max(axis=1) - pts.min(axis=1)) ** 2)))
+                    cnt, reach = pts.shape[1], 20.0 / sR
+                skw = gen_bin_args(rng, sR, reach, combo=combo)
+                want = np.linspace(0.0, skw.get("max_dist", diam / 3.0), skw.get("bin_no", sturges_oracle(cnt)) + 1)
+                mode = ("latlon" if sll else "metric") + ":" + "+".join(sorted(skw) or ["auto"])
+                scase = dict(latlon=sll, geo_scale=sR, dim=sdim, mesh_type="structured" if structured else "unstructured",
+                             pos=[np.asarray(a).tolist() for a in arg], **skw)
+                try:
+                    be = gs.standard_bins(arg, sdim, sll, mesh_type="structured" if structured else "unstructured", geo_scale=sR, **skw)
+                except Exception as ex:
+                    report("standard_bins:exception:" + mode, f"standard_bins raised {type(ex).__name__}: {ex}", scase)
+                    continue
+                ev += 1
+                atol = 1e-10 * sR if (sll and "max_dist" not in skw) else 0.0
+                if not (len(be) == len(want) and np.allclose(be, want, rtol=1e-10, atol=atol)):
+                    report("standard_bins:args:" + mode, "standard_bins differs from linspace(0, max_dist or (great-circle) box diameter / 3, bin_no or sturges + 1); "
+                           "max_dist and the result are in geo_scale units", scase, got=np.asarray(be).tolist(), want=want.tolist(), scale=scale_name(sR))
+                    continue
+                if sll:
+                    # the same call in radians, lengths converted
+                    kw1 = dict(skw)
+                    if "max_dist" in kw1:
+                        kw1["max_dist"] = kw1["max_dist"] / sR
+                    b1 = gs.standard_bins(arg, sdim, True, mesh_type="structured" if structured else "unstructured", **kw1)
+                    ev += 1
+                    if not (len(b1) == len(be) and np.allclose(be, b1 * sR, rtol=1e-10, atol=atol)):
+                        report("standard_bins:unit-change:" + mode, "standard_bins(latlon=True, geo_scale=s, max_dist=s*m) is not s * standard_bins(latlon=True, max_dist=m)",
+                               scase, got=np.asarray(be).tolist(), want=(b1 * sR).tolist(), scale=scale_name(sR))
             # ---------- S11: Krige(fit_variogram=True) on lat-lon data = vario_estimate(latlon, geo_scale) + fit_variogram(sill=var(data))
             if t % 6 == 0 and nv >= 8:
                 try:
@@ -779,5 +914,8 @@ def search(ctx, deep=False):
                "lat-lon incl. poles, date line, |lon| up to 725): isometrize on the sphere and round trips; captured kriging matrix vs cov_yadrenko of an "
                "independent great-circle distance and vs the 3-D model; simple kriging vs independent solve; rotation invariance (random SO(3) + full turns); "
                "CondSRF honours data; SRF(lat-lon) = SRF(3-D) on embedded points; vario_estimate(latlon) vs chord-geometry pair enumeration; standard_bins; "
+               "binning units: vario_estimate(latlon) with bin_edges given/None x bin_no given/None x max_dist given/None x four geo_scale kinds - returned "
+               "centres, edges handed to the kernel, estimates and counts vs brute-force great-circle binning, and 'other unit => same variogram, centres scaled'; "
+               "standard_bins over the same combinations (lat-lon and metric, structured and unstructured) vs an independent box diameter, and its unit change; "
                "fit_variogram recovers a Yadrenko variogram; lat-lon+time: state, t/anis[-1], setters, 4-D equivalence, kriging matrix; metric temporal: block-diagonal isometrize")
     return {"evaluations": ev, "violations": viol[:8], "summary": summary}
